@@ -88,7 +88,11 @@ void h_recsig_parse_compact(void) {
 #ifndef VERIF_NATIVE
     if (use_sig_recsig_parse_compact && use_in_recsig_parse_compact && recid_ok) __CPROVER_assert(ret == (be256(in64_recsig_parse_compact) < N_() && be256(in64_recsig_parse_compact + 32) < N_()), "C07 ecdsa_recoverable_signature_parse_compact: accepts exactly r, s below the group order");
 #endif
-    if (ret) __CPROVER_assert(sig_recsig_parse_compact.data[64] == recid_recsig_parse_compact, "C07 ecdsa_recoverable_signature_parse_compact: recovery id stored");
+    if (ret) {   /* the parsed object is read back through the library's own serializer, not by its bytes */
+        unsigned char out64[64]; int recid_out = -1, r2;
+        r2 = secp256k1_ecdsa_recoverable_signature_serialize_compact(&ctx, out64, &recid_out, &sig_recsig_parse_compact);
+        __CPROVER_assert(r2 == 1 && g_illegal == 0 && recid_out == recid_recsig_parse_compact, "C07 ecdsa_recoverable_signature_parse_compact: the parsed object serializes back with the same recovery id, without callback");
+    }
     if (ret && recid_recsig_parse_compact == 3) REACH("recoverable signature with recid_recsig_parse_compact 3 accepted");
     if (!ret && use_sig_recsig_parse_compact && use_in_recsig_parse_compact && recid_ok) REACH("recoverable signature rejected");
     if (use_sig_recsig_parse_compact && use_in_recsig_parse_compact && recid_recsig_parse_compact == 4) REACH("recid_recsig_parse_compact 4");
@@ -101,7 +105,12 @@ void h_pedersen_commitment_parse(void) {
     __CPROVER_assume(k_pedersen_commitment_parse < 33);
     ret = secp256k1_pedersen_commitment_parse(&ctx, use_c_pedersen_commitment_parse ? &c_pedersen_commitment_parse : NULL, use_in_pedersen_commitment_parse ? in33_pedersen_commitment_parse : NULL);
     API_POST("pedersen_commitment_parse", use_c_pedersen_commitment_parse && use_in_pedersen_commitment_parse);
-    if (ret) __CPROVER_assert((in33_pedersen_commitment_parse[0] == 8 || in33_pedersen_commitment_parse[0] == 9) && c_pedersen_commitment_parse.data[k_pedersen_commitment_parse] == in33_pedersen_commitment_parse[k_pedersen_commitment_parse], "C07 pedersen_commitment_parse: accepts only tags 8/9 and stores the 33 input bytes");
+    if (ret) {
+        unsigned char out33[33]; int r2;
+        __CPROVER_assert(in33_pedersen_commitment_parse[0] == 8 || in33_pedersen_commitment_parse[0] == 9, "C07 pedersen_commitment_parse: accepts only tags 8/9");
+        r2 = secp256k1_pedersen_commitment_serialize(&ctx, out33, &c_pedersen_commitment_parse);
+        __CPROVER_assert(r2 == 1 && g_illegal == 0 && out33[k_pedersen_commitment_parse] == in33_pedersen_commitment_parse[k_pedersen_commitment_parse], "C07 pedersen_commitment_parse: the parsed object serializes back to the 33 input bytes, without callback");
+    }
 #ifndef VERIF_NATIVE
     if (ret) __CPROVER_assert(be256(in33_pedersen_commitment_parse + 1) < P_(), "C07 pedersen_commitment_parse: accepts only x below the field prime");
 #endif
@@ -117,7 +126,12 @@ void h_generator_parse(void) {
     API_POST("generator_parse", use_g_generator_parse && use_in_generator_parse);
     if (ret) __CPROVER_assert(in33_generator_parse[0] == 10 || in33_generator_parse[0] == 11, "C07 generator_parse: accepts only tags 10/11");
 #ifndef VERIF_NATIVE
-    if (ret) __CPROVER_assert(be256(in33_generator_parse + 1) < P_() && be256(g_generator_parse.data) < P_() && be256(g_generator_parse.data + 32) < P_(), "C07 generator_parse: accepts only x below the field prime; the stored generator has canonical coordinates (valid for generator_load)");
+    if (ret) {   /* the parsed object is decoded through the library's own loader; assertions are on its fields */
+        secp256k1_ge e;
+        secp256k1_generator_load(&e, &g_generator_parse);
+        __CPROVER_assert(be256(in33_generator_parse + 1) < P_(), "C07 generator_parse: accepts only x below the field prime");
+        __CPROVER_assert(e.infinity == 0 && fval(&e.x) == be256(in33_generator_parse + 1) && fval(&e.y) < P_(), "C07 generator_parse: the parsed object loads as a finite element whose x is the input x and whose y is canonical");
+    }
 #endif
     if (ret && in33_generator_parse[0] == 11) REACH("generator with tag 11 accepted");
     if (!ret && use_g_generator_parse && use_in_generator_parse && in33_generator_parse[0] == 10) REACH("generator with tag 10 rejected");
